@@ -122,6 +122,16 @@ def run(case, rec):
             argd = idx.get(b[1], b[2]) if b else None
             shape = 'void' if b is None else argd['k']
             allf = idx.struct_all_fields(b[1], argd) if shape == 'struct' else []
+            # literal defaults as the compiler accepted them (the API description): how the lexer reads a
+            # string literal is judged once, by C02
+            ir_lit = {}
+            if shape == 'struct':
+                try:
+                    for f_ in pkg.api.namespaces[b[1]].data_type_by_name[b[2]].all_fields:
+                        if f_.has_default and not hasattr(f_.default, 'tag_name'):
+                            ir_lit[f_.name] = f_.default
+                except Exception:
+                    ir_lit = {}
             nontriv = (shape == 'struct' and argd.get('parent') and any(idx.is_optional(f) for _, _, f in allf)) or \
                 (b is not None and b[1] != ns) or style == 'upload' or r['deprecated'] is not None or version > 1
             rec.case(core.h64((repr(specs), ns, rname, version, repr(v), how)), bool(nontriv),
@@ -170,7 +180,8 @@ def run(case, rec):
                 else:
                     f = [x for _, _, x in allf if x['name'] == n][0]
                     fb = idx.base(f['type'])
-                    want = float(d[1]) if fb[0] == 'prim' and fb[1] in M.FLOATS else d[1]
+                    lit = ir_lit.get(n, d[1])
+                    want = float(lit) if fb[0] == 'prim' and fb[1] in M.FLOATS else lit
                     if p.default != want or isinstance(p.default, bool) != isinstance(want, bool):
                         viol('signature-default', 'parameter %s has default %r, expected %r' % (n, p.default, want), 'literal')
                         bad_default = True
@@ -202,7 +213,8 @@ def run(case, rec):
                             if d[0] == 'tag':
                                 exp_fields[n] = ('union', (fb[1], fb[2]), d[1], None)
                             else:
-                                exp_fields[n] = float(d[1]) if fb[0] == 'prim' and fb[1] in M.FLOATS else d[1]
+                                lit = ir_lit.get(n, d[1])
+                                exp_fields[n] = float(lit) if fb[0] == 'prim' and fb[1] in M.FLOATS else lit
                     expected_arg = ('struct', v[1], exp_fields)
                 elif shape == 'union':
                     uobj = values.materialize(pkg, idx, b, v)
